@@ -109,11 +109,8 @@ class M(Model):
         used = float(w.astype(np.float64)[p].sum())
         if used > self.budget + 1e-5:
             out.append(("packed weight exceeds the budget", f"sum={used} budget={self.budget}"))
-        want = self.budget - used
-        if abs(float(rb) - want) > 1e-5 * max(1.0, self.budget):
-            out.append(("remaining_budget != total_budget - packed weight", f"field={float(rb)} recomputed={want}"))
-        if float(rb) < -1e-6:
-            out.append(("remaining_budget negative", str(float(rb))))
+        # audit: C06 = the hard constraint only (total packed weight within the budget, recomputed from the raw arrays);
+        # the agreement / sign of the bookkeeping field remaining_budget is a transition matter (C09 predicts it) - removed
         return out
 
     def complete(self, s, ts):
@@ -155,7 +152,7 @@ class M(Model):
             return None
         if not self._legal(w, p, rb)[a]:
             return {"state": {"packed_items": p, "remaining_budget": rb, "weights": w, "values": v},
-                    "reward": 0.0, "last": True, "discount": 0.0}
+                    "reward": 0.0, "last": True}  # audit: discount is C03's, not part of C09 - not predicted
         p2 = p.copy()
         p2[a] = True
         rb2 = np.asarray(rb, np.float32) - np.asarray(w[a], np.float32)  # same float32 arithmetic as documented
@@ -165,7 +162,7 @@ class M(Model):
         else:
             reward = float(v.astype(np.float64)[p2].sum()) if last else 0.0
         return {"state": {"packed_items": p2, "remaining_budget": rb2, "weights": w, "values": v},
-                "reward": reward, "last": last, "discount": 0.0 if last else 1.0}
+                "reward": reward, "last": last}
 
     # ---- C10
     def validate_instance(self, s0):
